@@ -156,6 +156,14 @@ pub fn drive_stream(t: &mut Tracer, tier: &str, seed: u64, plan: Option<String>)
         run_requests(t, &sess(), &k, &vec![0u8; 16], &[3]);
         run_requests(t, &sess(), &vec![0u8; 16], &k, &[1, 2]);
     }
+    // (b2) LARGE single requests (a generator that produces its output in blocks or windows of 2^k words has its seam inside one call),
+    //      alone and followed by further requests (the state left behind by a large request)
+    for (i, big) in [1023usize, 1024, 1025, 4095, 4096, 4097, 5000, 8192, 8193, 9000].iter().enumerate() {
+        if !thorough && (i % 3 == 1) && *big != 4097 { continue; }
+        let (key, iv) = if i % 4 == 0 { structured[i % structured.len()].clone() } else { (rng.bytes(16), rng.bytes(16)) };
+        run_requests(t, &sess(), &key, &iv, &[*big, 1, 17]);
+    }
+    if thorough { run_requests(t, &sess(), &rng.bytes(16), &rng.bytes(16), &[(1 << 16) + 3, 2]); run_requests(t, &sess(), &rng.bytes(16), &rng.bytes(16), &[3, (1 << 15) + 1, 4097, 5]); }
     // (c) long streams with seeded random splits
     let (streams, total) = if thorough { (8, 1usize << 16) } else { (5, 4000usize) };
     for si in 0..streams {
@@ -275,8 +283,11 @@ pub fn drive_eea(t: &mut Tracer, tier: &str, seed: u64) {
     }
     // very long messages (up to 65 504 bits, the 3GPP maximum): rare events of the keystream generator (a carry that needs a second fold, about once
     // per 1200 LFSR steps) are reached through EEA3 / EIA3 themselves, incl. structured keys
-    for i in 0..(if thorough { 24 } else { 5 }) {
-        let len = if i == 0 { 65504 } else if i == 1 { 65503 } else { 40000 + rng.below(25504) as u32 };       // 65504 bits is the 3GPP maximum
+    // ... and beyond it (LENGTH is a 32-bit quantity; the property quantifies over every LENGTH): 2^k-word seams of the keystream generator
+    let beyond: Vec<u32> = if thorough { vec![131040, 131072, 131073, 131105, 160000, 262144, 262145, 300001] } else { vec![131073, 131105, 200003] };
+    let nlong = if thorough { 24 } else { 5 };
+    for i in 0..(nlong + beyond.len()) {
+        let len = if i >= nlong { beyond[i - nlong] } else if i == 0 { 65504 } else if i == 1 { 65503 } else { 40000 + rng.below(25504) as u32 };       // 65504 bits is the 3GPP maximum
         let key = match i % 5 { 3 => vec![0u8; 16], 4 => vec![0xffu8; 16], _ => rng.bytes(16) };
         let count = rng.next() as u32;
         let msg = words(&mut rng, ((len + 31) / 32) as usize);
